@@ -23,11 +23,39 @@ func (r *runner) addTx(ch *simnode.Chain, tx types.Tx) (err error, panicked bool
 	return err, false
 }
 
+// senderKind: kinds whose sender is recovered from a signature.
+func senderKind(k txKind, wt *wireTx) bool {
+	switch k {
+	case kTx, kCreate, kTxt:
+		return true
+	case kUtx:
+		return wt != nil && utxHasAccountInput(wt)
+	}
+	return false
+}
+
 // judgeAccept applies the statement to a transaction the chain has accepted
-// (mempool admission, or a block that the replica found valid).
-func (r *runner) judgeAccept(stage string, kind txKind, name string, v verdict, obj types.Tx) {
+// (mempool admission, or a block that the replica found valid). tm is nil for
+// a transaction as its submitter signed it.
+func (r *runner) judgeAccept(stage string, kind txKind, name string, v verdict, obj types.Tx, tm *tampered) {
 	from, ferr := obj.From()
+
+	// "changing any signed field yields a different sender or a rejection":
+	// the edited transaction is accepted and still attributed to the original
+	// signer.
+	if tm != nil && tm.field && senderKind(kind, tm.wt) {
+		if ov := r.w.judge(tm.src.w); ov.ok && !ov.nobody && ferr == nil && addr20(from) == ov.chargee {
+			key := fmt.Sprintf("field-unsigned/%s/%s", kind, tm.comp)
+			if kind == kUtx && tm.rct {
+				key = "utxo/account-input-rctsig-unsigned"
+			}
+			r.violate("field-unsigned", key, "%s: %s transaction with %s changed after signing (%s) is accepted and still attributed to the original signer %x: no signature covers that part", stage, kind, tm.comp, name, from[:])
+			return
+		}
+	}
 	switch {
+	case v.ok && v.nobody:
+		// ring-signed, built by the owner: nothing to attribute
 	case v.ok:
 		if ferr != nil || addr20(from) != v.chargee {
 			r.violate("sender-mismatch", "sender-mismatch/"+kind.String(),
@@ -40,6 +68,16 @@ func (r *runner) judgeAccept(stage string, kind txKind, name string, v verdict, 
 				stage, kind, name, from[:], map[bool]string{true: "no chain at all (legacy V 27/28)", false: "another chain"}[v.legacy], r.w.p)
 		}
 		// otherwise: a different sender, allowed by the statement
+	case kind == kUtx && tm != nil && tm.unused:
+		// a field that takes no part in the authorisation (transaction id
+		// malleability): recorded only
+		r.c.Probe("utxo-unused-field-edit-accepted")
+	case kind == kUtx && v.reason == "edited-ring-signed-transaction":
+		comp := "unknown"
+		if tm != nil {
+			comp = tm.comp
+		}
+		r.violate("utxo-forgery", "utxo-forgery/"+comp, "%s: ring-signed transaction with %s changed after signing (%s) accepted", stage, comp, name)
 	default:
 		class, key := v.key(kind)
 		r.violate(class, key, "%s: %s transaction (%s) accepted although not authorised: %s (chain's sender %x)", stage, kind, name, v.reason, from[:])
@@ -62,25 +100,38 @@ func storeFrom(tx types.Tx, a common.Address) bool {
 		t.StoreFrom(a)
 	case *types.TokenTransaction:
 		t.StoreFrom(a)
+	case *types.UTXOTransaction:
+		t.StoreFrom(a)
 	default:
 		return false
 	}
 	return true
 }
 
+func warmth(b bool) string {
+	if b {
+		return "warm"
+	}
+	return "cold"
+}
+
 // round = one height.
-func (r *runner) round(round int, honest []*sent) {
+func (r *runner) round(round int, honest []*sent, forged []*tampered) {
 	c, w := r.c, r.w
 	rec := roundRec{MemOutcome: map[string]int{}}
-	pSent := map[types.Tx]*sent{}   // P's object -> submission
-	warm := map[*sent]bool{}        // submitted to (and kept by) R's mempool
-	verdicts := map[*sent]verdict{} // oracle's verdict on the submitted bytes
+	pSent := map[types.Tx]*sent{} // P's object -> submission
+	warm := map[*sent]bool{}      // submitted to (and kept by) R's mempool
 
 	// 1. submissions
 	for _, s := range honest {
 		v := w.judge(s.w)
-		verdicts[s] = v
 		rec.Honest = append(rec.Honest, s.kind.String())
+		if s.kind == kUtx {
+			r.checkRecognition(s)
+			if r.stop {
+				return
+			}
+		}
 		obj, err := decodeTx(s.raw)
 		if err != nil {
 			r.trouble("own transaction does not decode: %v (%s)", err, s.desc)
@@ -93,13 +144,19 @@ func (r *runner) round(round int, honest []*sent) {
 		c.Event(1)
 		if err == nil {
 			pSent[obj] = s
-			r.judgeAccept("producer mempool", s.kind, "as signed", v, obj)
+			r.judgeAccept("producer mempool", s.kind, "as signed", v, obj, nil)
 			if s.indep {
 				c.Probe("indep-client-accepted")
+			}
+			if s.kind == kUtx {
+				c.Probe(map[bool]string{true: "utxo-fund-admitted", false: "utxo-spend-admitted"}[s.utx.ain])
 			}
 		} else {
 			if v.ok {
 				c.Probe("authorised-refused-" + s.kind.String())
+				if s.kind == kUtx && s.utx.spent != nil {
+					s.utx.spent.pending = false
+				}
 			} else {
 				c.Probe("unauthorised-submission-refused")
 			}
@@ -112,7 +169,7 @@ func (r *runner) round(round int, honest []*sent) {
 			}
 			if errR == nil {
 				warm[s] = true
-				r.judgeAccept("replica mempool", s.kind, "as signed", v, objR)
+				r.judgeAccept("replica mempool", s.kind, "as signed", v, objR, nil)
 			}
 		}
 		if r.stop {
@@ -121,19 +178,41 @@ func (r *runner) round(round int, honest []*sent) {
 	}
 
 	// 2. tampering on the way to the replica's mempool
-	var tams []*tampered
+	tams := append([]*tampered{}, forged...)
 	idxOf := map[txKind][]int{}
 	for k := txKind(0); k < nKinds; k++ {
 		idxOf[k] = applicable(k)
 	}
 	for i := 0; i < r.cfg.MemT && len(honest) > 0 && !r.stop; i++ {
 		s := honest[r.tm.Int(len(honest))]
+		if s.kind != kUtx && r.hasUtx(honest) && r.tm.Bool(1, 3) { // keep the confidential transactions well covered
+			s = r.pickUtx(honest)
+		}
 		x := &tamperCtx{w: w, t: r.tm, orig: s, others: honest}
-		wt, name, ok := x.mutate(idxOf[s.kind])
+		tm := &tampered{src: s}
+		var ok bool
+		if s.kind == kUtx {
+			tm.wt, tm.name, tm.comp, tm.rct, tm.unused, ok = x.mutateUtx(idxOf[kUtx])
+			tm.field = ok && tm.comp != "account-signature"
+		} else {
+			tm.wt, tm.name, tm.field, ok = x.mutateF(idxOf[s.kind])
+			tm.comp = tm.name
+		}
 		if !ok {
 			continue
 		}
-		tm := &tampered{src: s, wt: wt, raw: wt.bytes(), name: name, v: w.judge(wt)}
+		tm.raw = tm.wt.bytes()
+		tm.v = w.judge(tm.wt)
+		tams = append(tams, tm)
+	}
+	for _, tm := range tams {
+		if r.stop {
+			return
+		}
+		if tm.ghost {
+			continue
+		}
+		s := tm.src
 		obj, derr := decodeTx(tm.raw)
 		acc := false
 		if derr == nil {
@@ -148,7 +227,7 @@ func (r *runner) round(round int, honest []*sent) {
 			acc = err == nil
 			if acc {
 				tm.memAcc = true
-				r.judgeAccept("replica mempool (cache "+map[bool]string{true: "warm", false: "cold"}[warm[s]]+")", s.kind, name, tm.v, obj)
+				r.judgeAccept("replica mempool (cache "+warmth(warm[s])+")", s.kind, tm.name, tm.v, obj, tm)
 			}
 		}
 		c.Evals(1)
@@ -156,11 +235,13 @@ func (r *runner) round(round int, honest []*sent) {
 		rec.MemOffered++
 		oc := outcome(derr == nil, acc)
 		rec.MemOutcome[oc]++
-		c.Finger("m", name, oc)
+		c.Finger("m", tm.name, oc)
 		if acc && tm.v.ok {
 			c.Probe("tampered-admitted-as-other-sender")
 		}
-		tams = append(tams, tm)
+		if s.kind == kUtx {
+			c.Probe("utxo-tampered-judged")
+		}
 	}
 	if r.stop {
 		return
@@ -202,14 +283,39 @@ func (r *runner) round(round int, honest []*sent) {
 	}
 
 	// 5. commit: the ghost block when the replica (correctly) took it, else the honest one
-	commitBlk, commitRaws := honestBlk, raws
+	commitBlk, commitRaws, commitSubs := honestBlk, raws, subs
 	if r.ghostBlk != nil {
 		commitBlk, commitRaws = r.ghostBlk, r.ghostRaws
+		commitSubs = append([]*sent{}, subs...)
+		for i := range commitSubs {
+			if commitSubs[i] == r.ghostSrc {
+				commitSubs[i] = nil
+			}
+		}
 		r.ghostBlk, r.ghostRaws = nil, nil
 		rec.Ghost = true
 	}
-	r.commit(commitBlk, commitRaws)
+	r.commit(commitBlk, commitRaws, commitSubs)
 	r.smp.Rounds = append(r.smp.Rounds, rec)
+}
+
+func (r *runner) hasUtx(ss []*sent) bool {
+	for _, s := range ss {
+		if s.kind == kUtx {
+			return true
+		}
+	}
+	return false
+}
+
+func (r *runner) pickUtx(ss []*sent) *sent {
+	var u []*sent
+	for _, s := range ss {
+		if s.kind == kUtx {
+			u = append(u, s)
+		}
+	}
+	return u[r.tm.Int(len(u))]
 }
 
 // variants offers blocks carrying one tampered transaction each.
@@ -223,9 +329,10 @@ func (r *runner) variants(round int, tams []*tampered, txs types.Txs, raws [][]b
 	var una, aut []*tampered
 	for _, t := range tams {
 		switch {
+		case t.ghost:
 		case t.sameH:
 			pick = append(pick, t)
-		case !t.v.ok:
+		case !t.v.ok || (t.field && t.rct):
 			una = append(una, t)
 		default:
 			aut = append(aut, t)
@@ -301,6 +408,9 @@ func (r *runner) variants(round int, tams []*tampered, txs types.Txs, raws [][]b
 		} else {
 			c.Probe("variant-cold-cache")
 		}
+		if t.src.kind == kUtx {
+			c.Probe("utxo-variant-judged")
+		}
 		c.Evals(1)
 		c.Finger("v", t.name, mode, accepted)
 		r.smp.Variants = append(r.smp.Variants, vr)
@@ -308,16 +418,19 @@ func (r *runner) variants(round int, tams []*tampered, txs types.Txs, raws [][]b
 			continue
 		}
 		// the replica found the block valid
-		stage := fmt.Sprintf("block at height %d (%s, cache %s)", blk.Height, mode, map[bool]string{true: "warm", false: "cold"}[warm[t.src]])
+		stage := fmt.Sprintf("block at height %d (%s, cache %s)", blk.Height, mode, warmth(warm[t.src]))
 		var robj types.Tx
 		if pos >= 0 {
 			robj = nb.Data.Txs[pos]
 		} else {
 			robj = nb.Data.Txs[len(nb.Data.Txs)-1]
 		}
-		r.judgeAccept(stage, t.src.kind, t.name, t.v, robj)
+		r.judgeAccept(stage, t.src.kind, t.name, t.v, robj, t)
 		if r.stop {
 			return
+		}
+		if t.field && t.rct && t.src.kind == kUtx {
+			continue // judged (relational rule); the sender is unchanged by construction
 		}
 		if hasVictim && (!t.v.ok || t.v.chargee != victim) {
 			// the result hashes in this block were computed with the victim as
@@ -355,7 +468,7 @@ func (r *runner) variants(round int, tams []*tampered, txs types.Txs, raws [][]b
 
 // commit runs CheckBlock+CommitBlock of blk on R and P and checks the state
 // movement against the oracle's senders of the transactions in it.
-func (r *runner) commit(blk *types.Block, raws [][]byte) {
+func (r *runner) commit(blk *types.Block, raws [][]byte, subs []*sent) {
 	c, w := r.c, r.w
 	nbR, partsR, accR, err := w.checkOn(w.R, blk)
 	if err != nil {
@@ -374,9 +487,9 @@ func (r *runner) commit(blk *types.Block, raws [][]byte) {
 
 	// the oracle's senders
 	type want struct {
-		kind    txKind
-		v       verdict
-		wt      *wireTx
+		kind txKind
+		v    verdict
+		wt   *wireTx
 	}
 	var wants []want
 	watch := map[addr20]bool{addr20(types.MultiSignNonceAddr): true}
@@ -400,11 +513,11 @@ func (r *runner) commit(blk *types.Block, raws [][]byte) {
 		}
 		v := w.judge(wt)
 		wants = append(wants, want{kind, v, wt})
-		r.judgeAccept(fmt.Sprintf("committed block %d", blk.Height), kind, "tx "+fmt.Sprint(i), v, nbR.Data.Txs[i])
+		r.judgeAccept(fmt.Sprintf("committed block %d", blk.Height), kind, "tx "+fmt.Sprint(i), v, nbR.Data.Txs[i], nil)
 		if r.stop {
 			return
 		}
-		if v.ok {
+		if v.ok && !v.nobody {
 			expect[v.chargee]++
 			watch[v.chargee] = true
 		}
@@ -480,8 +593,21 @@ func (r *runner) commit(blk *types.Block, raws [][]byte) {
 			}
 		case kCut:
 			c.Probe("upgrade-committed")
+		case kUtx:
+			r.afterCommitUtx(raws[i])
+			if r.stop {
+				return
+			}
+			if i < len(subs) && subs[i] != nil && subs[i].utx != nil {
+				if o := subs[i].utx.spent; o != nil {
+					o.spent, o.pending = true, false
+					c.Probe("utxo-spend-committed")
+				} else {
+					c.Probe("utxo-fund-committed")
+				}
+			}
 		}
-		if x.v.ok {
+		if x.v.ok && !x.v.nobody {
 			if _, isUser := w.byAddr[x.v.chargee]; !isUser && x.kind != kMst {
 				c.Probe("different-sender-charged")
 			}
@@ -497,7 +623,7 @@ func (r *runner) commit(blk *types.Block, raws [][]byte) {
 		if s := r.carry[tx]; s != nil && w.judge(s.w).ok {
 			if s.holder != nil {
 				r.nonce[s.holder.a20]++
-			} else {
+			} else if s.kind == kMst {
 				r.mstNonce++
 			}
 		}
